@@ -29,7 +29,7 @@ package format
 //@   call TrimSuffix#1 requires len(arg0) >= 1 && at(arg0, len(arg0) - 1) == 10 && arg1 == "\n"                           [C03 C07 C16]
 //@   loop 1 invariant -1 <= rangeindex && rangeindex < len(args) && (forall j in 0..rangeindex+1 :: isvalid(args[j]))
 //@   loop 1 decreases len(args) - rangeindex
-//@   loop 2 invariant s != nil && r.r != nil && len(s.Body) % 48 == 0 && isvalid(s.Type) && (forall j in 0..len(s.Args) :: isvalid(s.Args[j])) && issuffix(r.r.$rem, old(r.r.$rem)) && len(r.r.$rem) < len(old(r.r.$rem)) && old(r.err) == nil
+//@   loop 2 invariant s != nil && r.r != nil && len(s.Body) % 48 == 0 && isvalid(s.Type) && (forall j in 0..len(s.Args) :: isvalid(s.Args[j])) && issuffix(r.r.$rem, old(r.r.$rem)) && len(r.r.$rem) < len(old(r.r.$rem)) && old(r.err) == nil && fresh(s) && (rg(s.Body) == 0 || fresh(s.Body))
 //@   loop 2 decreases len(r.r.$rem)
 //@   ensures#sticky old(r.err) != nil ==> s == nil && err == old(r.err) && r.r.$rem == old(r.r.$rem)     [C07 C13 C16]
 //@   ensures#stored r.err == err                                                                           [C07 C13 C16]
@@ -64,7 +64,7 @@ package format
 //@   ensures#payload err == nil ==> issuffix(payload.$rem, old(input.$rem))           [C07 C12]
 //@   fresh h when err == nil
 //@   fresh h.Recipients when err == nil && len(h.Recipients) > 0
-//@   modifies input.$rem
+//@   modifies input.$rem, input.$bufd, input.$under.$rem
 
 //@ func (*WrappedBase64Encoder).writeWrapped(w, p) (n, err)
 //@   requires#empty len(w.buf.$bbuf) == 0
@@ -94,6 +94,7 @@ package format
 //@   assumes#acc err == nil ==> n == len(p) && w.$acc == cat(old(w.$acc), bytes(p))
 //@   assumes#frame w.dst == old(w.dst) && w.$enc == old(w.$enc) && w.$out0 == old(w.$out0) && w.enc == old(w.enc) && w.written >= old(w.written) && hasprefix(w.dst.$out, old(w.dst.$out))
 //@   modifies w.$acc, w.written, w.dst.$out, w.buf.$bbuf
+//@   frame assumed the base64 stream encoder behind w.enc is library code that calls back into writeWrapped (same assumption as assumes#acc)
 
 //@ func (*WrappedBase64Encoder).Close(w) (err)
 //@   requires w.enc != nil
@@ -110,7 +111,7 @@ package format
 //@   call NewWrappedBase64Encoder#1 requires arg0 == b64 && arg1 == w                                             [C05 C07]
 //@   call WrappedBase64Encoder).Write#1 requires same(arg1, r.Body)                                               [C03 C05 C07]
 //@   ensures#append hasprefix(w.$out, old(w.$out))                                                                [C13 C16]
-//@   modifies w.$out
+//@   modifies w.$out, w.$wn
 
 //@ func (*Header).MarshalWithoutMAC(h, w) (err)
 //@   requires h != nil && w != nil && (forall j in 0..len(h.Recipients) :: h.Recipients[j] != nil)
@@ -119,7 +120,7 @@ package format
 //@   call io.WriteString#1 requires arg0 == w && arg1 == "age-encryption.org/v1\n"                                [C05 C07]
 //@   call Marshal#0 requires arg1 == w                                                                            [C03 C05 C07]
 //@   assumes#out err == nil ==> w.$out == cat(old(w.$out), hdrbytes(h))                                          [C03 C05 C07]
-//@   modifies w.$out
+//@   modifies w.$out, w.$wn
 
 //@ func (*Header).Marshal(h, w) (err)
 //@   requires h != nil && w != nil && (forall j in 0..len(h.Recipients) :: h.Recipients[j] != nil)
@@ -127,7 +128,7 @@ package format
 //@   call EncodeToString#1 requires same(arg1, h.MAC)                                                             [C03 C05 C07]
 //@   ensures#out err == nil ==> w.$out == cat(old(w.$out), hdrbytes(h), " ", b64raw(bytes(h.MAC)), "\n")          [C03 C05 C07]
 //@   assumes#count $hmarshal == old($hmarshal) + 1
-//@   modifies w.$out, $hmarshal
+//@   modifies w.$out, w.$wn, $hmarshal
 
 //@ func DecodeString(s) (b, err)
 //@   ensures#canon err == nil <==> b64rawok(s)                                          [C07]
